@@ -68,6 +68,10 @@ class Path:
         return out
 
 
+# private helpers that rules analyse by name (their own paths, guards and yields): a call to them stays a call
+NOT_INLINED = {"typelib.graph._level", "typelib.serdes._make_fields_iterator", "typelib.serdes._is_iterable_of_pairs", "typelib.binding._get_binding", "typelib.py.inspection._hints_from_signature", "typelib.py.refs._resolve_module_name", "typelib.serdes._isoformat_duration"}
+
+
 class Evaluator:
     """Evaluates expressions of one function (or of module level) to terms."""
 
@@ -209,7 +213,7 @@ class Evaluator:
             return None
         mn, _, nm = f[1].rpartition(".")
         mod = self.prog.modules.get(mn)
-        if mod is None or not nm.startswith("_") or nm.startswith("__"):
+        if mod is None or not nm.startswith("_") or nm.startswith("__") or f[1] in NOT_INLINED:
             return None
         fi = mod.functions.get(nm)
         if fi is None or fi.node.decorator_list or isinstance(fi.node, ast.AsyncFunctionDef):
